@@ -630,3 +630,7 @@ add_multi("s-counters-initialised-by-a-helper-of-the-constructor", S, ["C07", "C
     ("dfols/controller.py", "    def initialise_coordinate_directions(", "    def _reset_run_counters(self):\n        self.last_successful_run = 0\n\n    def initialise_coordinate_directions(")])
 add("s-base-shift-before-the-rebasing", S, ["C16", "C01"], "dfols/solver.py", "                xnew = xnew - base_shift  # before xopt is updated\n                control.model.shift_base(base_shift)\n",
     "                control.model.shift_base(base_shift)\n                xnew = xnew - base_shift  # (base_shift was read before the shift)\n")
+add("s-room-for-new-points-in-a-local", S, ["C18"], "dfols/controller.py", "            num_pts_to_add = min(params(\"restarts.increase_npt_amt\"), params(\"restarts.max_npt\") - self.model.npt())",
+    "            room = params(\"restarts.max_npt\") - self.model.npt()\n            num_pts_to_add = min(params(\"restarts.increase_npt_amt\"), room)")
+add("s-insert-position-written-out", S, ["C17"], "dfols/model.py", "        k = self.npt()\n        self.points = np.insert(self.points, k, x, axis=0)", "        k = min(self.num_pts, self.npt_so_far)\n        self.points = np.insert(self.points, k, x, axis=0)")
+add("s-saved-row-copied-with-np-copy", S, ["C19"], "dfols/controller.py", "dk = D[k,:].copy()", "dk = np.copy(D[k,:])", all_occurrences=True)
